@@ -8,7 +8,7 @@
  *           limit : hex size_t;  ending : e (EOF) | r (ECONNRESET) | s (stall, the request is then
  *           cancelled);  segs : decimal sizes a,b,c (0 = one EAGAIN; the unscripted rest arrives as
  *           one segment), "-" (one shot) or rK (every segment K bytes);  options: failat=K failfrom=K sockerr=N sendfail=K
- * result: req=<hex> ret=<ok|null> cbs=<n> [cb=null | cb=<status>/<hdrs>/<body>]* end=<done|cancelled|error|stuck>
+ * result: req=<hex> ret=<ok|null> cbs=<n> [cb=null | cb=<status>/<hdrs>/<body>]* end=<done|cancelled|error|error-cancelled|stuck>
  *           | allocs=<n> refused=<n> live=<n> exit=<ok|code N|sig N>
  *         body : null (NULL, len 0) | toobig (NULL, len (size_t)-1) | <hex> | L<len>C<crc32> (len > 1024)
  *                | anything else spelled out (never expected) */
@@ -362,7 +362,16 @@ run_case(char ** tok, int ntok)
 			http_request_cancel(H);
 			end = "cancelled";
 		} else if (rc != 0) {
+			/*
+			 * A callback reported a fatal error to the event loop.  die() has freed
+			 * the request; a failure below http.c (e.g. the writer could not start
+			 * its next write) has not, and the owner releases it the normal way.
+			 */
 			end = "error";
+			if (ctx.ncalls == 0 && wh_is_live(H)) {
+				http_request_cancel(H);
+				end = "error-cancelled";
+			}
 		} else if (ctx.ncalls == 0)
 			end = "stuck";
 
